@@ -154,7 +154,7 @@ claim("C02",
 
 claim("C03",
       "For every ensureAction emitted by one real player step (cert threshold; verified vote or bundle completing the cert quorum; round interruption; late payload with a stored bundle; two commits in one step through the pipelined freshest bundle): the Certificate is field for field the bundle of the cert event handled or consulted, that event is a certThreshold, "
-      "Certificate.Round = pre-round + k, Step = cert, Proposal non-bottom, the payload is the one reported committable for exactly (e.Round, e.Period) (or the verified payload on the late path), payload.value() == Certificate.Proposal, and the player ends in round + number of ensures; soft/next thresholds, timeouts and proposal-votes never ensure.",
+      "Certificate.Round = pre-round + k, Step = cert, Proposal non-bottom, the payload is the one reported committable for exactly (e.Round, e.Period) (or the verified payload on the late path), payload.value() == Certificate.Proposal, and the player ends in round + number of ensures; soft/next thresholds, timeouts and proposal-votes never ensure. Bundle side (VerifC03CertBundleFromTracker): the C06 bounded model check of the real cert-step voteTracker.handle / genBundle (5 votes, thorough 6, by 3 senders with one shared symbolic weight) decides that the bundle handed to the player has all votes for the threshold value, distinct senders disjoint from its equivocation pairs and weight >= threshold.",
       "Same oracle, stubs and preconditions as C01; 'event round = player round' is assumed here and decided on the real voteAggregator in the C01 companion harness. The ledger's EnsureBlock and the asynchronous ledger writer are outside.")
 
 claim("C16",
@@ -204,3 +204,14 @@ claim("C10",
       "accountUpdates.lookupAssetResources(addr, cursor, limit) with a DB reader obeying the SQL contract (first min(max,K) rows above the cursor, increasing, joined creator/params, round D), K <= 2 rows (thorough 3), limit 1..2 (3), two delta rounds with symbolic holding writes/deletes, creator create/reconfigure/destroy and third-party records: the page is exactly the first `limit` present ids above the cursor in the merged (DB + deltas) view - strictly increasing, newest amount, creator/params from the newest params record (absent when destroyed), nothing present skipped unless beyond a full page; "
       "a DB behind the tracker gives StaleDatabaseRoundError, reader errors pass through, limit 0 touches nothing.",
       "Single page at the latest round only; the SQL scan, lookupApplicationResources, kv-prefix / box listings, REST next-token plumbing and multi-page iteration (on paper: pages taken at one round compose) are outside; a DB ahead of the tracker waits on a condition variable that is not modelled.")
+
+claim("C35",
+      "The real availability machinery - NewAppEvalParams / computeAvailability (every resources.fill* / share*), RecordAD for created assets, and the resolvers availableAccount / accountReference / mutableAccountReference / assignAccount / resolveAccount, availableAsset / assetReference / resolveAsset, the app counterparts, allowsHolding / requireHolding / holdingReference, allowsLocals / requireLocals / localsReference - for the app call at index 0 of a group of 1-2 transactions "
+      "(second transaction pay, keyreg, acfg, axfer, afrz, app call with arrays or with tx.Access), program version symbolic (4..14 single, 7..10 two-transaction), reference lists of up to 2 symbolic entries, query ids full 64-bit symbolic and query address over every scenario address plus the zero address and an outsider: resolver success => the resource satisfies an oracle restating the sharing rules (own lists, created-in-group from v6, foreign-app addresses from v7, group sharing from v9 with per-transaction holdings/locals pairs), and availableX / allowsX <=> oracle in both directions; ids <= 255 never returned under AppForbidLowResources. "
+      "KNOWN FINDING (reproduced natively, findings/c35): under tx.Access the zero address is treated as named as soon as the list holds any non-address entry (IndexByAddress compares against empty Address fields); recorded in known_findings.json, every other obligation stays live.",
+      "AppIndex.Address is an injective uninterpreted function; no ledger is reached. Outside: simulation's UnnamedResources, versions < 4, boxes, the inner-transaction allows* checks, groups larger than 2; the Access harnesses exclude id 0 as an operand (id 0 names no resource).")
+
+claim("C44",
+      "The real TransactionPool.Remember / checkPendingQueueSize / remember / ingest / checkSufficientFee / computeFeePerByte / addToPendingBlockEvaluator(Once) / rememberCommit(false) on a hand-built pool (txPoolMaxSize <= 4, numPendingWholeBlocks <= 3, symbolic fee multiplier, overflow / shutdown / no-evaluator flags, 0, 1 or 3 pending transactions) with a scripted block evaluator (nil / ErrNoSpace / other) and a group of one, two, or a single state-proof transaction with symbolic Fee / FirstValid / LastValid: "
+      "Remember == nil => the evaluator accepted exactly this group (one call, or two when the first answer was ErrNoSpace, with one reset and numPendingWholeBlocks + 1), every member is alive (LastValid >= round + pending blocks, exact integers), every member pays at least the fee-per-byte threshold (except the free state-proof), the queue size limit held (or the one-time state-proof overflow slot was consumed), and pendingTxGroups / pendingTxids grew by exactly this group; on any error both collections are unchanged and nothing stays staged.",
+      "Ledger.Latest, Transaction.ID (injective tag) and GetEncodedLength (per-transaction constant) are stubs; inputs bounded so the 64-bit threshold arithmetic cannot wrap. OnNewBlock / recomputeBlockEvaluator / AssembleBlock / rememberCommit(flush=true), the fee-multiplier update and the wait-for-ledger loop are outside: the claim is the admission rule of one Remember call, not the pool's evolution over blocks.")
